@@ -268,6 +268,9 @@ class MappingStorage:
                 raise ZODB.POSException.ConflictError(
                     oid=oid, serials=(old_tid, serial), data=data)
 
+        # Never hand out an oid that is in use: records may be stored
+        # under oids that did not come from new_oid() (copies).
+        self._oid = max(self._oid, ZODB.utils.u64(oid))
         self._tdata[oid] = data
 
     checkCurrentSerialInTransaction = (
